@@ -151,3 +151,57 @@ Example c18_explorer :
   fst (sg_search {| o_cas_ok := AcqRel; o_cas_fail := Relaxed; o_store := Relaxed; o_load := Acquire |}
                  [[CSet 7%N]; [CGet]]) = Some [(0, 0); (0, 0); (0, 0); (1, 0); (1, 0)].
 Proof. vm_compute. split; reflexivity. Qed.
+
+(* ==== added after the audit of 2026-10-02 (selftest/audit/REPORT-2026-10-02.md) ==== *)
+Require Import Cadence.Proofs.AuditM2.
+
+(* ---- A.15: the explorer (roots sg_search / sg_explore) and source_ords ---- *)
+
+(* the record the checker hands to the explorer IS the literal record of c18_source_orderings *)
+Theorem c18_source_ords :
+  source_ords = {| o_cas_ok := AcqRel; o_cas_fail := Relaxed; o_store := Release; o_load := Acquire |} /\
+  ord_ok source_ords = true.
+Proof. exact source_ords_literal. Qed.
+
+(* soundness: a witness returned by sg_search really is a racy execution of the machine *)
+Theorem c18_search_sound : forall os progs w n,
+  sg_search os progs = (Some w, n) -> g_raced (sg_run os progs w) = true.
+Proof. exact search_sound. Qed.
+
+(* completeness, the fuel taken into account: the fuel of sg_search, 3 * (number of calls), bounds
+   the number of enabled steps of EVERY execution (a set is at most 3 instructions, a get 2, an
+   is_set 1; disabled steps change nothing), and the candidates tried at a state cover every enabled
+   step (every thread, every message a load / CAS may read).  So the answer None is never a fuel
+   artefact: it means that NO schedule, of any length and with any read choices, reaches a race. *)
+Theorem c18_search_complete : forall os progs,
+  fst (sg_search os progs) = None -> forall sched, g_raced (sg_run os progs sched) = false.
+Proof. exact search_complete. Qed.
+
+(* the explorer decides race-freedom of the given programs under the given orderings *)
+Theorem c18_search_decides : forall os progs,
+  (fst (sg_search os progs) = None <-> forall sched, g_raced (sg_run os progs sched) = false) /\
+  (forall w, fst (sg_search os progs) = Some w -> g_raced (sg_run os progs w) = true).
+Proof. exact search_decides. Qed.
+
+(* with the side condition the explorer answers None for all programs (by c18_search_decides this is
+   c18_race_free, not a consequence of running out of fuel) *)
+Theorem c18_search_none : forall os progs, ord_ok os = true -> fst (sg_search os progs) = None.
+Proof. exact search_none. Qed.
+
+(* the worker sg_explore with an ARBITRARY fuel: a witness is always genuine; None is conclusive
+   only if  fuel >= 3 * (number of calls)  - c18_explore_fuel_needed shows the condition is needed *)
+Theorem c18_explore_any_fuel : forall os progs fuel,
+  (forall w n, sg_explore os fuel (sg_init progs) [] = (Some w, n) -> g_raced (sg_run os progs w) = true) /\
+  (3 * sg_total_calls progs <= fuel ->
+   fst (sg_explore os fuel (sg_init progs) []) = None ->
+   forall sched, g_raced (sg_run os progs sched) = false).
+Proof. exact explore_any_fuel. Qed.
+
+(* with the store weakened to Relaxed,  T0: set 7, T1: get  races after five steps: fuel 4 answers
+   None, the fuel of sg_search (6) finds the race, and the witness does race *)
+Example c18_explore_fuel_needed :
+  let os := {| o_cas_ok := AcqRel; o_cas_fail := Relaxed; o_store := Relaxed; o_load := Acquire |} in
+  fst (sg_explore os 4 (sg_init [[CSet 7%N]; [CGet]]) []) = None /\
+  fst (sg_search os [[CSet 7%N]; [CGet]]) = Some [(0, 0); (0, 0); (0, 0); (1, 0); (1, 0)] /\
+  g_raced (sg_run os [[CSet 7%N]; [CGet]] [(0, 0); (0, 0); (0, 0); (1, 0); (1, 0)]) = true.
+Proof. vm_compute. repeat split; reflexivity. Qed.
